@@ -107,6 +107,37 @@ def extra(ctx, sc, r):
                     str(r["leaked"]), size=n)
 
 
+def writes_fail_scenarios(ctx):
+    """a path that has gone half-dead the other way round: writes fail (the pings cannot even be sent), reads are silent.
+    That is an unanswered ping like any other: the ping/pong timeout ends the connection and a new attempt follows.
+    Real runs + oracle (the model's worlds have no write-only failure)."""
+    scs = []
+    for rc in (TPS, 5 * TPS):
+        for iv, to in ((5 * TPS, 2 * TPS), (3 * TPS, TPS), (7 * TPS, 3 * TPS)):
+            for ssl in (False, True):
+                for t_fail in (TPS, 2 * iv - 1, 2 * iv + 1):
+                    sc = scenario(("Es",), rc, "close", ka=True, ssl=ssl)
+                    sc.update(iv=iv, to=to, writes_fail=[0, t_fail], kind="writes-fail", horizon=80 * TPS,
+                              tag=f"Es|close|rc={rc}|writes-fail@{t_fail}")
+                    scs.append(sc)
+    return scs
+
+
+def writes_fail_extra(ctx, sc, r):
+    extra(ctx, sc, r)
+    iv, to = sc["iv"], sc["to"]
+    items = [it.partition(":") for it in r["trace"].split(";")] if r["trace"] else []
+    dials = [int(t) for t, _, rest in items if rest.startswith("dial:")]
+    # the peer never answers: the first ping (sent, or attempted, at 2*iv after the connection came up) is the first unanswered one
+    t_ping = (dials[0] if dials else 0) + 2 * iv
+    deadline = t_ping + 2 * to + 8
+    rep = next((int(t) for t, _, rest in items if int(t) >= t_ping and (rest == "cb:on_error:eTIMEOUT" or rest.startswith("sleep:"))), None)
+    if rep is None or rep > deadline or len(dials) < 2:
+        ctx.violate("retry", "unsendable-ping-never-times-out", sc,
+                    f"ping/pong timeout by tick {deadline} (first unanswered ping, sent or unsendable, at {t_ping}), then a new attempt",
+                    f"report at {rep}, dials at {dials}; trace …{r['trace'][-240:]}", size=appcheck.size_of(sc))
+
+
 def halfdead_extra(ctx, sc, r):
     """worlds with an "Et" connection (iv > 2*to): the first unanswered ping at T must be reported by T + 2*to."""
     if "Et" not in sc.get("tag", "").split("|")[0].split("-"):
@@ -163,6 +194,12 @@ def scenarios(ctx):
         sc["runs"] = [sc["runs"][0], sc2["runs"][0]]
         sc.update(kind="rerun", tag=sc["tag"] + "|then|" + sc2["tag"])
         scs.append(sc)
+    # the interval given through the process-wide default (websocket.setReconnect) with the argument left out
+    for seq in (("Ee",), ("Er", "Ee"), ("R", "Ee"), ("Ex",), ("J", "Ee")):
+        for rc in (TPS, 5 * TPS):
+            sc = scenario(seq, rc, "close")
+            sc.update(rc_global=rc, rc_arg="none", kind="global-default", tag=sc["tag"] + "|setReconnect")
+            scs.append(sc)
     # steady inbound data without pongs: the ping timeout must still be noticed and followed by a new attempt (iv > 2*to)
     for seq in (("Et",), ("Et", "Ee"), ("Ee", "Et")):
         for ssl in (False, True):
@@ -295,6 +332,8 @@ def run(ctx):
                       nontrivial_of=lambda sc: len(sc["runs"][0]) > 1)
     appcheck.evaluate(ctx, "C15", closer_scenarios(ctx), cls_of=cls_of, extra_check=closer_extra, model=False,
                       nontrivial_of=lambda sc: True)
+    appcheck.evaluate(ctx, "C15", writes_fail_scenarios(ctx), cls_of=cls_of, extra_check=writes_fail_extra, model=False,
+                      nontrivial_of=lambda sc: True)
 
 
 def search(ctx):
@@ -305,4 +344,6 @@ def replay(ctx, data):
     if "input" not in data:
         return appcheck.replay_nofail(ctx, data, run)
     ext = bool(data["input"].get("ext"))
+    if data["input"].get("kind") == "writes-fail":
+        return appcheck.replay_scenario(ctx, "C15", data, extra_check=writes_fail_extra)
     return appcheck.replay_scenario(ctx, "C15", data, extra_check=external_extra if ext else extra)
